@@ -6,7 +6,7 @@ cd "$wt" || exit 2
 export CARGO_NET_OFFLINE=true
 git diff > /tmp/confirm_$$.diff
 [ -s /tmp/confirm_$$.diff ] || git apply "$sd/patch.diff"
-cp "$sd/demo.rs" "crates/$crate/tests/zz_seed_demo.rs"
+mkdir -p "crates/$crate/tests"; cp "$sd/demo.rs" "crates/$crate/tests/zz_seed_demo.rs"
 cargo test -p "$crate" ${FEATURES:+--features "$FEATURES"} --test zz_seed_demo --offline > "$sd/confirm_with.log" 2>&1; with_rc=$?
 git stash -q -- crates ':!crates/'"$crate"'/tests/zz_seed_demo.rs' 2>/dev/null || git stash -q
 # the demo file is untracked, so it survives the stash
